@@ -64,7 +64,7 @@ class Tokenizer:
 
     def _cache_lines(self, tok: TokenInfo) -> None:
         """Remember the source line of every token read (blank and comment lines included)."""
-        if tok.start[0] not in self._lines:
+        if tok.start[0] not in self._lines or tok.end[0] > tok.start[0]:
             # a token that spans rows (a triple-quoted string) carries all of them: one entry per physical line
             parts = tok.line.split("\n")
             rows = [part + "\n" for part in parts[:-1]] + ([parts[-1]] if parts[-1] or len(parts) == 1 else [])
@@ -105,7 +105,7 @@ class Tokenizer:
         paren_level: list[str] = []
         # join strings while handling whitespace
         string = ""
-        line = ""
+        rows: dict[int, str] = {}  # the physical lines the argument lies on
         while True:
             tok = self._next_raw()
             if tok.type == Token.OP and tok.string[-1] in "([{":  # push paren level
@@ -125,12 +125,17 @@ class Tokenizer:
                 if tok.is_exact_type(","):
                     break
             end = tok.end
+            parts = tok.line.split("\n")
+            for row, part in enumerate(parts[:-1], tok.start[0]):
+                rows.setdefault(row, part + "\n")
+            if parts[-1]:
+                rows.setdefault(tok.start[0] + len(parts) - 1, parts[-1])
             if start is None:
                 start = tok.start
-                line = tok.line
                 string = tok.string
             else:
                 string += tok.string
+        line = "".join(rows[row] for row in sorted(rows) if start is not None and row >= start[0])
 
         if (not string) and self._stack:
             # empty params
